@@ -1,7 +1,7 @@
 """C12 - cache returns only right-key, unexpired results and retains the LRU `limit`."""
 import random
 
-from harness.legs import cfg_text, leg_m, leg_mutant, leg_r, leg_t_gen
+from harness.legs import cfg_text, gen_traces, leg_m, leg_mutant, leg_r, leg_t_gen
 from harness.vloop import VClock, VLoop
 
 SPEC = "Cache"
@@ -259,7 +259,7 @@ def run(rep, work, tier, seed):
     # trace module generated from Cache.tla: 5 keys, 3 receivers, limits 1..4, several expirations, clock jumps 1..3
     rnd = random.Random(seed * 31 + 7)
     ntr, length = (150, 60) if tier == "quick" else (1500, 60)
-    traces = [gen_trace(rnd, length) for _ in range(ntr)]
+    traces = gen_traces(rep, lambda: gen_trace(rnd, length), ntr)
     leg_t_gen(rep, work, SPEC, f"trace_{tier}", traces,
               variables=["form", "limit", "expn", "now", "entries", "ninv", "invKey", "invAt", "invOut", "uses", "nops",
                          "drained", "obs"],
